@@ -18,6 +18,9 @@ inductive Node where
   | leaf (readonly : Bool)
   | nested (readonly : Bool) (fields : List (Str × Node))
   | method (takesArg returnsUnit : Bool)
+  /-- a `#[repe(nested)]` field whose type implements `RepeStruct` by hand (not modelled further:
+      what matters is which segments it is handed) -/
+  | foreign (readonly : Bool)
 
 abbrev Spec := List (Str × Node)
 
@@ -42,10 +45,13 @@ inductive Access where
   | read (path : List Str)
   | write (path : List Str)
   | call (path : List Str) (returnsUnit : Bool)
+  /-- the nested hand-written struct at `path` is called with the segments `rest` -/
+  | foreign (path : List Str) (rest : List Str)
   deriving DecidableEq, Repr
 
 def Access.path : Access → List Str
   | .readWhole p => p | .writeWhole p => p | .read p => p | .write p => p | .call p _ => p
+  | .foreign p r => p ++ r
 
 /-- The generated `repe_handle`, as far as addressing goes: `pre` = tokens already consumed by the
 enclosing structs, `segs` = the remaining ones, `body` = a body is present. -/
@@ -69,6 +75,23 @@ def resolve : Spec → List Str → List Str → Bool → Except SErr Access
       if !tail.isEmpty then .error .invalidSubpath
       else if takesArg && !body then .error .bodyExpected
       else .ok (.call (pre ++ [head]) unit)
+    | some (.foreign ro) =>
+      -- the same generated arm as `nested`: "the nested struct itself" ONLY when no token is left
+      -- (a lone empty token `[""]` is a token and is forwarded)
+      if tail.isEmpty then
+        if !body then .ok (.foreign (pre ++ [head]) [])
+        else if ro then .error .bodyUnexpected
+        else .ok (.writeWhole (pre ++ [head]))
+      else .ok (.foreign (pre ++ [head]) tail)
+
+/-- A chain of `#[repe(nested)]` derived structs `names[0] / names[1] / …` ending in a hand-written
+`RepeStruct` (the last name). -/
+def chainSpec : List Str → Spec
+  | [] => []
+  | n :: rest =>
+    match rest with
+    | [] => [(n, .foreign false)]
+    | _ :: _ => [(n, .nested false (chainSpec rest))]
 
 /-- Leaf values by access path; a leaf never written holds `dflt`. -/
 abbrev Store := List (List Str × Bytes)
@@ -85,6 +108,7 @@ inductive DOut where
   | null                   -- `Ok(None)`
   | whole (path : List Str)-- `Ok(Some(object))` of a (sub)struct; contents not modelled
   | called (path : List Str) (unit : Bool)
+  | handed (rest : List Str)   -- a nested hand-written struct was given these segments
   | err (e : SErr)
   deriving DecidableEq, Repr
 
@@ -100,6 +124,7 @@ def derivedHandle (spec : Spec) (dflt : Bytes) (st : Store) (segs : List Str) (b
   | .ok (.readWhole p) => (.whole p, st)
   | .ok (.writeWhole _) => if wholeOk then (.null, st) else (.err .deserialize, st)
   | .ok (.call p unit) => (.called p unit, st)
+  | .ok (.foreign _ rest) => (.handed rest, st)
 
 /-- body gate of `RegisteredStruct::handle`: `none` = no body (read), `some none` = rejected with
 InvalidBody, `some (some d)` = decode with `d` (an undecodable body is an `Err(RepeError)`). -/
